@@ -218,6 +218,59 @@ func init() {
 		if nMiss != 1 {
 			c.Undecided("C42c: expected one branch on the spec's presence in the CU map, found %d", nMiss)
 		}
+		// what rolls over is the fund as funded: participation is taken, and the spec's Fund is
+		// rewritten, only once the spec is known to have been served (the ok outcome of the lookup)
+		served := func(in ssa.Instruction) bool {
+			for _, g := range ir.Guards(in) {
+				v, edge := stripNot(g.If.Cond, g.Edge)
+				if d := ir.Desc(v); edge && strings.HasPrefix(d, "param#2[") && strings.HasSuffix(d, "]#1") {
+					return true
+				}
+			}
+			return false
+		}
+		const contrib = "x/rewards/keeper.Keeper.ContributeToValidatorsAndCommunityPool"
+		taxes := func(call *ssa.CallCommon) bool {
+			callee := call.StaticCallee()
+			if callee == nil {
+				return false
+			}
+			if ir.FuncName(callee) == contrib {
+				return true
+			}
+			found := false
+			if callee.Blocks != nil && inProd(callee) && strings.HasPrefix(ir.FuncName(callee), "x/rewards/keeper.") {
+				ir.EachInstr(callee, func(x ssa.Instruction) {
+					if cc := ir.CallOf(x); cc != nil && cc.StaticCallee() != nil && ir.FuncName(cc.StaticCallee()) == contrib {
+						found = true
+					}
+				})
+			}
+			return found
+		}
+		nTax, early := 0, ""
+		var earlyAt ssa.Instruction
+		ir.EachInstr(dir, func(in ssa.Instruction) {
+			if call := ir.CallOf(in); call != nil && taxes(call) {
+				nTax++
+				if !served(in) {
+					early, earlyAt = "takes the validators/community participation", in
+				}
+			}
+			if st, ok := in.(*ssa.Store); ok {
+				if fa, ok := st.Addr.(*ssa.FieldAddr); ok && ir.FieldKey(fa) == "x/rewards/types.Specfund.Fund" && !served(in) {
+					early, earlyAt = "rewrites the spec's fund", in
+				}
+			}
+		})
+		switch {
+		case nTax == 0:
+			c.Undecided("C42c: no participation (tax) call found in distributeIprpcRewards")
+		case early != "":
+			c.Fail("C42c/distributeIprpcRewards/participation-only-for-served-specs", c.P.InstrPos(earlyAt), "distributeIprpcRewards "+early+" before it knows that the spec was served: the fund of an unserved spec is charged (again every month) before what is left of it rolls over")
+		default:
+			c.OK("C42c/distributeIprpcRewards/participation-only-for-served-specs", c.P.Pos(dir.Pos()), "participation calls and stores to specFund.Fund are dominated by the spec's presence in the CU map")
+		}
 		var paySites []Site
 		paySites = append(paySites, c.CallsByName(dir, false, "invoke:x/rewards/types.DualStakingKeeper.RewardProvidersAndDelegators")...)
 		paySites = append(paySites, c.CallsByName(dir, false, rwkK+"ContributeToValidatorsAndCommunityPool")...)
